@@ -139,7 +139,8 @@ class Shadow:
             self.built, self.ran, self.changed, self.value, self.sig, self.deps, self.orderonly = {}, {}, {}, {}, {}, {}, {}
             self.epoch = 0
         self.flag = set()
-        self.uncertain = set()      # completion raced with a cancellation: processed or dropped, the trace cannot tell
+        if not keep_db or not hasattr(self, "uncertain"):
+            self.uncertain = set()      # completion raced with a cancellation: processed or dropped, the trace cannot tell
 
     def apply_build(self, b, rules, env):
         """Judge one build's events, then advance the shadow. rules: key -> dict(sig, obs, follow, ...) seen by this engine instance."""
